@@ -54,9 +54,10 @@ func envInt(k string, d int) int {
 
 var current struct {
 	sync.Mutex
-	spec *h.Spec
-	k    int
-	busy bool
+	spec          *h.Spec
+	k             int
+	busy          bool
+	startProgress int64
 }
 
 func replayDir() string {
@@ -101,7 +102,25 @@ func watchdog() {
 		current.Lock()
 		busy := current.busy
 		spec, k := current.spec, current.k
+		sp := current.startProgress
 		current.Unlock()
+		if busy && cur-sp > int64(envInt("VERIF_MAX_EVENTS", 1500000)) {
+			// runaway: events are produced without bound (e.g. unbounded recursion / spin at zero latency)
+			d := fullDump()
+			lib, rep := h.CensusOf(d)
+			res := &h.Result{Name: spec.Name, Class: spec.Class, Seed: spec.Seed, Obs: map[string]int{}, FP: map[string]string{}}
+			if rep > 50 {
+				res.Viol = append(res.Viol, h.Violation{Prop: stallProp(spec), Clause: "recursion", Sig: "unbounded-recursion:runaway",
+					Detail: fmt.Sprintf("a goroutine's stack holds the same library function %d times; %v", rep, lib)})
+			} else {
+				res.Inconclusive = "runaway event production without deep recursion"
+			}
+			p := filepath.Join(replayDir(), spec.Name+".json")
+			b, _ := json.Marshal(replayFile{Spec: spec, Viol: res.Viol, Fatal: "runaway\n" + d[:min(len(d), 200000)]})
+			os.WriteFile(p, b, 0o644)
+			emit(line{K: k, Result: res, Replay: p})
+			os.Exit(3)
+		}
 		if cur != last || !busy {
 			last, idle = cur, 0
 			continue
@@ -155,6 +174,13 @@ func classifyStall(d1, d2 string) (string, string) {
 	mutexLib := map[string]bool{}
 	for _, d := range []string{d1, d2} {
 		for _, g := range strings.Split(d, "\n\n") {
+			// A user callback (harness frames) sleeping on the virtual clock underneath
+			// library frames while another goroutine waits for a mutex: a mutex wait is
+			// not a durable block, so the bubble's clock cannot advance and the sleep
+			// never ends. In real time this resolves itself: not a deadlock.
+			if strings.Contains(g, "time.Sleep") && strings.Contains(g, "verifharness/h.(*Runner).build.func") && strings.Contains(g, "NATS-Leader-Election/leader.") {
+				return "artifact", "callback sleeping on the virtual clock while a library lock is wanted (synctest limitation)"
+			}
 			hdr := g
 			if i := strings.IndexByte(g, '\n'); i >= 0 {
 				hdr = g[:i]
@@ -253,6 +279,7 @@ func TestBatch(t *testing.T) {
 		emit(line{Begin: spec.Name, K: k})
 		current.Lock()
 		current.spec, current.k, current.busy = spec, k, true
+		current.startProgress = h.Progress.Load()
 		current.Unlock()
 		first := i == 0
 		h.RunSpec(t, spec, func(ev []h.Event) {
